@@ -12,6 +12,7 @@ def main(argv):
     proofs_ok, h_ok, unrec = standard_proof_steps(v, PROP, [], props or ['theories/Model/Lower.vo'], ['c02'],
                                                   corr_targets=['theories/Corr/C02.vo'])
     cases, texts, oracle_fail, stats = [], [], [], ''
+    runcases, runtexts = [], []
     if h_ok:
         lines = []
         os.makedirs(os.path.join(WORK, 'C02'), exist_ok=True)
@@ -35,6 +36,7 @@ def main(argv):
             if parts[0] == 'ORACLE-FAIL': oracle_fail.append(parts[1:])
             elif parts[0] == 'STATS': stats = '\t'.join(parts[1:])
             elif parts[0] == 'LOWER': cases.append(parts[1]); texts.append(parts[2] if len(parts) > 2 else '')
+            elif parts[0] == 'RUN': runcases.append(parts[1]); runtexts.append(parts[2] if len(parts) > 2 else '')
     def src_of(t):
         bits = int(t.split('cfgbits=')[1].split()[0]) if 'cfgbits=' in t else 4095
         body = t.split(' ', 1)[1] if 'cfgbits=' in t else t
@@ -77,6 +79,15 @@ def main(argv):
             v.violation('model/implementation disagreement on the lowered instruction list',
                         {'class': 'c02-corr', 'case': cases[i], 'source_text': body, 'cfgbits': bits, 'broken': 'correspondence Corr.C02.model_of'},
                         no_failing_input=(not unknown_fail and not probe_found))
+    if v.corr_ok and runcases:
+        rmism, rerrs = coq_eval_cases(PROP, IMPORTS, 'c02case', runcases, shard=(30 if tier == 'quick' else 150), tag='run')
+        v.obligation('correspondence: Model.LowerProg.sprog = AstVm on the source body and Model.LowerProg.wprog (on the model-lowered stream) = AstVm on the raised compiled code: time, real time, instruction log, registers, on %d bodies x 2 valuations' % len(runcases),
+                     not rmism and not rerrs, ('%d mismatches; ' % len(rmism)) + '; '.join(rerrs)[:600] if (rmism or rerrs) else '')
+        for i in rmism[:3]:
+            bits, body = src_of(runtexts[i])
+            v.violation('model/implementation disagreement on a run (semantics of the source body or of the lowered stream)',
+                        {'class': 'c02-corr-run', 'case': runcases[i][-3000:], 'source_text': body, 'cfgbits': bits, 'broken': 'correspondence Corr.C02.model_run'},
+                        no_failing_input=not unknown_fail)
     if (not proofs_ok or not v.corr_ok) and not v.violations:
         v.violation('proof obligation does not check: %s' % json.dumps(v.coq_error)[:400], {'class': 'c02-proof', 'broken': v.coq_error}, no_failing_input=True)
     elif any(not o[1] for o in v.obligations) and not v.violations:
@@ -85,7 +96,7 @@ def main(argv):
     v.coverage.update({
         'evaluations': len(cases), 'distinct_nontrivial': distinct_count([c for c in cases if 'LOk' in c]),
         'rule': 'seeded random flat bodies (assignments incl. compound, declarations, conditional/counting/unconditional forward jumps, calls with complex arguments, time labels; expressions with arithmetic, casts through both sigils, negation, ~, ternaries, logical conditions) x intrinsic tables (12 config bits: count-jump flavours, compound-assign intrinsics, comparison binops, native negation/bitnot, one- vs two-part conditional jumps, integer-only ops, scratch pool sizes 1..4 per type); each body is lowered by llir::Lowerer and compared instruction by instruction with the model, and executed by AstVm before/after from 4 valuations; distinct = distinct case terms that lowered successfully',
-        'traces_validated_against_impl': len(cases), 'generator_stats': stats,
+        'traces_validated_against_impl': len(cases) + 2 * len(runcases), 'run_cases': len(runcases), 'generator_stats': stats,
         'samples': [{'case': c[-700:], 'source': t[:300]} for c, t in list(zip(cases, texts))[:2]],
     })
     return v.finish(level='proof',
